@@ -15,14 +15,16 @@ CLAIMED = {
    note=NOTE + " os.path / open / importlib are not modelled (in-memory readers + per-case temp dir). The in-place-inclusion theorem over the model is not proved yet.", design="5/C14"),
  'C15': dict(category='translation_validation', text="Executable Gallina model of _should_skip, the parser delegate's placeholder rule and the three skip sites, compared with the implementation on generated texts x every form of skip_unknown; independent oracle: a statement-level reference interpreter written from the property text; placeholders are additionally required to raise on use and at finalize.",
    note=NOTE + " Static registration only; import side effects are modelled as a fixed set of importable modules.", design="5/C15"),
- 'C16': dict(category='translation_validation', text="Executable Gallina model of the streaming statement consumer (parse_config, includes through readers/locations, try_with_location chain, provenance) compared with the implementation on generated configs with one injected fault (14 kinds, any include depth / block member); independent oracle: a second fresh gin given only the statements preceding the fault must end in the same store and provenance; error class and (file, line) chain checked against the generator's own line bookkeeping. One known finding (F11, block members before a syntactic fault) is recorded.",
-   note=NOTE + " Tokenizer, ast.literal_eval per atom and the file system are not modelled. No Coq theorem about the consumer fold is proved yet.", design="5/C16"),
+ 'C16': dict(text="Coq theorems over the statement-consumer model: C16_stream_eq (for include-free configs, parsing-and-applying statement by statement equals parsing the whole stream into groups and consuming them in order up to the first failure, for every fault position and kind), the prefix theorems for groups and for statements inside a group, a failed parse records no imports and touches neither lock, registry nor constants, provenance of a bind, and the location-chain algebra. Tied to /repo by generated configs with one injected fault (14 kinds, any include depth / block member); independent oracle: a second fresh gin given only the statements preceding the fault; error class and (file, line) chain checked against the generator's own line bookkeeping. One known finding (F11) is recorded.",
+   note=NOTE + " Tokenizer, ast.literal_eval per atom and the file system are not modelled; the streaming theorem is proved for include-free configs (includes are covered by the correspondence).", design="5/C16"),
  'C04': dict(text="Coq theorems: a parameter the caller supplies (positionally or by keyword) has no entry among the bindings that are deep-copied, i.e. its reference is never evaluated (refutation theorem for the code before the repair); evaluation / calls of any nesting never change the store, registry, lock or constants and restore the scope stack (frame theorems by mutual fuel induction). Model tied to /repo by generated programs with nested scoped/unscoped, evaluated/unevaluated references and MUTATING probes; independent predicate: the exact sequence of (configurable, scope) body executions predicted from the store snapshot, delivery shape, freshness, and store equality across every call.",
    note=NOTE + " copy.deepcopy on plain containers is CPython; container isolation is checked by the mutating probes, not proved (the model's values are immutable).", design="5/C04"),
  'C05': dict(category='translation_validation', text="The Gin-machine model (macros as references to gin.macro under the macro's scope, constants through the suffix map, parse-time resolution of %name) compared with the implementation on generated programs with definitions / uses / re-definitions in every order across parse phases, scope-like macro names, macros bound to @g() and to other macros, constants with shared suffixes; independent predicate from the op list: each use receives the LAST definition, k uses of a macro bound to @g() run g k times, a constant use delivers the stored object, invalid / duplicate / ambiguous constant names are errors. Finalize checks are covered by C12's theorems.",
    note=NOTE + " No macro-specific Coq theorem yet (the frame and lock theorems of the machine apply).", design="5/C05"),
  'C07': dict(category='translation_validation', text="The Gin-machine model's operative record (defaults filtered by lists and representability, overlaid by bindings, minus caller-supplied names, merged per (scope, selector)) compared with the implementation after generated call sequences; independent predicate: key set = pairs called, per-key parameter sets and most-recent values recomputed from the calls, and a replay: a second fresh gin parses operative_config_str() and repeats the calls, which must receive the same arguments and reproduce the text.",
    note=NOTE + " The replay theorem over the model is not proved.", design="5/C07"),
+ 'C06': dict(category='translation_validation', text="Executable Gallina model of the serialiser at line level (import manager with dedupe / re-aliasing, macro section, sections sorted by the lower-cased reversed key with the repaired tie-break, parameter sort, representability filter, single-line vs continuation decision by code-point length, markdown), compared line by line with config_str() and markdown() on generated stores x widths x indents; pprint.pformat / repr / representability are measured per value and handed to the model. Independent predicates: the text parses in a fresh gin, re-parsing restores every representable binding with equal value and type, re-serialising is identical, a permuted binding order gives the identical text, parameters sorted, markdown verbatim. One known finding (F18) is recorded; two defects were repaired.",
+   note=NOTE + " pprint.pformat, repr and the representability test are oracle inputs to the model. No Coq theorem about the serialiser is proved yet.", design="5/C06"),
  'C08': dict(text="Coq proof (for every history of set/pop/clear/copy and every query, over unbounded name sets) that the suffix-tree model refines a finite map, that matching = exact-match-else-all-suffix-matches, and that the reported minimal selector resolves back and no shorter suffix does; model tied to /repo by a differential run of generated histories plus an independent brute-force statement of the property evaluated on the implementation.",
    note=NOTE + " ASCII selectors only.", design="5/C08"),
  'C09': dict(text="Coq theorem C09_restored: every op of the Gin-machine language (config_scope blocks of any depth, raising bodies, scoped references, nested calls) leaves the scope stack exactly as found on both exits; composition and invalid-scope theorems. Thread half: per-thread-stack model compared with 2-4 real threads stepped by a central scheduler on generated (thorough: exhaustively enumerated) schedules, with an independent 'what the thread sees alone' predicate.",
